@@ -4,6 +4,28 @@ import json
 MAXI = 2**31 - 1
 
 
+WBASE = 32768
+
+
+def wide(v):
+    """NmfuWide literal of a Python integer"""
+    n = abs(v)
+    limbs = []
+    while n:
+        limbs.append(n % WBASE)
+        n //= WBASE
+    return Raw('[neg |-> %s, m |-> <<%s>>]' % ('TRUE' if v < 0 else 'FALSE', ','.join(map(str, limbs))))
+
+
+def fits(v):
+    return -MAXI - 1 <= v <= MAXI
+
+
+def scalar_cell(v):
+    """the specification's scalar cell for a C integer value"""
+    return {'v': v} if fits(v) else {'w': wide(v)}
+
+
 class Raw(str):
     """already-rendered TLA+ text"""
 
@@ -42,6 +64,8 @@ def tla(v):
     if isinstance(v, int):
         if not (-MAXI - 1 <= v <= MAXI):
             raise ValueError('integer out of TLC range: %r' % v)
+        if v == -MAXI - 1:
+            return '(-2147483647 - 1)'      # TLC parses the digits before the sign
         return str(v) if v >= 0 else '(%d)' % v
     if isinstance(v, str):
         return tla_str(v)
@@ -71,7 +95,12 @@ def conv_expr(e):
     k = e['k']
     if k == 'lit':
         v = e['v']
-        if not isinstance(v, int) or not (-MAXI - 1 <= v <= MAXI):
+        if not isinstance(v, int):
+            return {'k': 'litwide'}
+        if not fits(v):
+            # a decimal constant that does not fit int has type long on LP64; beyond long the C type is not modelled
+            if -(1 << 63) <= v < (1 << 63):
+                return {'k': 'litw', 'w': wide(v)}
             return {'k': 'litwide'}
         return {'k': 'lit', 'v': v}
     if k in ('var', 'len'):
@@ -130,13 +159,18 @@ def conv_act(a):
 
 def conv_decl(o):
     t = o['type']
-    d = {'type': t, 'signed': True, 'width': 4, 'size': 0, 'term': False, 'hasdef': False, 'def': 0}
+    d = {'type': t, 'signed': True, 'width': 4, 'size': 0, 'term': False, 'hasdef': False, 'def': 0, 'bigdef': False, 'defw': wide(0)}
     if t == 'int':
         d['signed'] = bool(o['signed'])
         d['width'] = o['width']
         if o.get('default') is not None:
             d['hasdef'] = True
-            d['def'] = o['default']['v']
+            v = o['default']['v']
+            if fits(v):
+                d['def'] = v
+            else:
+                d['bigdef'] = True
+                d['defw'] = wide(v)
     elif t == 'bool':
         if o.get('default') is not None:
             d['hasdef'] = True
